@@ -119,6 +119,27 @@ func genC05(t *rapid.T) kit.History {
 			kit.TxSpec{Ops: []kit.Op{{Kind: "addlink", Store: dir[0], Field: dir[1], ID: dir[2], Keys: []string{dir[3]}}}},
 			kit.TxSpec{Ops: []kit.Op{{Kind: "addlink", Store: dir[0], Field: dir[1], ID: dir[2], Keys: []string{dir[4]}}}})
 	}
+	if rapid.IntRange(0, 3).Draw(t, "prefixRemove") == 0 {
+		// an entity is linked to an id that starts with another id (b10 / b1) and not to that other one; removing the
+		// link to the shorter id changes nothing
+		dir := [][5]string{{"as", "blinks", "a2", "b10", "b1"}, {"bs", "alinks", "b2", "a10", "a1"}}[rapid.IntRange(0, 1).Draw(t, "prefixRemoveSide")]
+		other := map[string]string{"bs": "as", "as": "bs"}[dir[0]]
+		m0 := replayModel(h)
+		var create []kit.Op
+		if !m0.LinkEndExists(dir[0], dir[2]) {
+			create = append(create, kit.Op{Kind: "create", Store: dir[0], ID: dir[2], Spec: &kit.EntSpec{Name: "n"}})
+		}
+		for _, id := range dir[3:] {
+			if !m0.LinkEndExists(other, id) {
+				create = append(create, kit.Op{Kind: "create", Store: other, ID: id, Spec: &kit.EntSpec{Name: "n"}})
+			}
+		}
+		if len(create) > 0 {
+			h.Txs = append(h.Txs, kit.TxSpec{Ops: create})
+		}
+		h.Txs = append(h.Txs, kit.TxSpec{Ops: []kit.Op{{Kind: "setlinks", Store: dir[0], Field: dir[1], ID: dir[2], Keys: []string{dir[3]}}}},
+			kit.TxSpec{Ops: []kit.Op{{Kind: "removelink", Store: dir[0], Field: dir[1], ID: dir[2], Keys: []string{dir[4]}}}})
+	}
 	if rapid.IntRange(0, 2).Draw(t, "shrinkTx") > 0 {
 		return h
 	}
